@@ -114,6 +114,8 @@ type World struct {
 	hdrHook        func(name string, h map[string][]string, req *types.HttpContext)
 	MsgHook        func(sr *SessRec, p Pkt) // called for every message event, in the listener, outside w.mu
 	CbHook         func(sm *SentMsg)        // called at the end of every send callback, outside w.mu
+	// WSOfferDeflate: every websocket client of this world offers permessage-deflate in its opening request
+	WSOfferDeflate bool
 }
 
 func (w *World) Failf(format string, a ...any) {
